@@ -3,13 +3,17 @@
 A behaviour (from specs/Merge.tla, or from the random driver below) is
     {"pre": [op..], "b1": [op..], "b2": [op..], "w": 0|1, "t": 0|1, "c1": k, "c2": k}
     op = {"o":"reg","r":name,"e":kind} | {"o":"flag","r":name,"e":kind} | {"o":"st","off":k,"n":bytes,"e":kind}
+         | {"o":"pp","k":k}                      p := p + k (the branch moves the pointer's base register)
          | {"o":"vp","r":name,"offs":[k1,k2]}   (driver only: r := vec of two pointers p+k1, p+k2)
-         | {"o":"stv","r":name,"n":bytes,"e":kind} (driver only: store through the vector-valued pointer r)
+         | {"o":"stv","r":name,"n":bytes,"e":kind,"d":disp} (driver only: store through the vector-valued
+                                                 pointer r at displacement d)
+    optional "b3", "c3", "w2": a third branch; the merge of the first two is merged again with it (a second record)
 in MODEL units. The replayer is dumb: it concretises value kinds (constants, input registers, sums, xors - the
 same kind is the same expression in both branches), path-condition choices (x == K, y == K) and the valuations
 with the seeded rng, performs the API calls, and serialises (attribute reads only) what each of m1, m2 and
-mm = merge(m1, m2) holds for every register and every memory byte, plus the items. Nothing is compared here:
-specs/MergeTrace.tla decides.
+mm = merge(m1, m2) holds for every register and every memory byte, plus the items, what the assume() copies
+merge() works on hold, and what amoco's own evaluation of mm on two of the valuations (c >> mm) returns.
+Nothing is compared here: specs/MergeTrace.tla decides.
 """
 import random
 
@@ -62,38 +66,150 @@ def _apply(m, ops, u, kinds, fkinds, scale):
             n = op["n"] * scale
             v = m(kinds[op["e"]]())
             m[X.mem(u["p"] + op["off"] * scale, 8 * n)] = v[0:8 * n] if 8 * n < W else v
+        elif op["o"] == "pp":
+            m[u["p"]] = m(u["p"] + op["k"] * scale)
         elif op["o"] == "vp":
             m[_reg(u, op["r"])] = X.vec([u["p"] + k * scale for k in op["offs"]])
         elif op["o"] == "stv":
             n = op["n"] * scale
             v = m(kinds[op["e"]]())
-            m[X.mem(_reg(u, op["r"]), 8 * n)] = v[0:8 * n] if 8 * n < W else v
+            d = op.get("d", 0) * scale
+            a = _reg(u, op["r"]) + d if d else _reg(u, op["r"])
+            m[X.mem(a, 8 * n)] = v[0:8 * n] if 8 * n < W else v
+
+
+def _tree(f):
+    try:
+        return ser.tree(f())
+    except Exception as ex:
+        return {"k": "raised", "w": 0, "sf": 0, "what": type(ex).__name__}
+
+
+def _observe(rec, held, mm, u, lo, hi, envs):
+    """what held[0], held[1] (copies taken before the call) and mm hold, per register / memory byte / item key"""
+    from amoco.cas import expressions as X
+    from amoco.cas.mapper import mapper
+    from amoco.config import conf
+    maps = held + [mm]
+    names = ["m1", "m2", "mm"]
+    copies = []                                   # the assume() copies merge() works on
+    for m in held:
+        try:
+            copies.append(m.assume(m.conds))
+        except Exception:
+            copies.append(None)
+    for name in sorted(u):
+        r = u[name]
+        e = {"n": name, "w": r.size}
+        for nm, m in zip(names, maps):
+            e[nm] = _tree(lambda: m[r])
+        rec["regs"].append(e)
+    for o in range(lo, hi):
+        k = X.mem(u["p"] + o, 8) if o else X.mem(u["p"], 8)
+        e = {"o": o}
+        for nm, m in zip(names, maps):
+            e[nm] = _tree(lambda: m[k])
+        for nm, m in zip(("m1a", "m2a"), copies):
+            e[nm] = _tree(lambda: m[k]) if m is not None else {"k": "raised", "w": 0, "sf": 0, "what": "assume"}
+        rec["cells"].append(e)
+    keys = []
+    for m in maps:
+        for loc, v in m:
+            if not any(ser.tree(loc) == ser.tree(k) for k, _ in keys):
+                keys.append((loc, v.size))
+    for loc, size in keys:
+        e = {"loc": ser.tree(loc)}
+        msize = [v.size for l, v in mm if ser.tree(l) == ser.tree(loc)]
+        rsize = msize[0] if msize else size          # locations are compared at the size of mm's item
+        for nm, m in zip(names, maps):
+            own = [v for l, v in m if ser.tree(l) == ser.tree(loc)]
+            e[nm + "_has"] = 1 if own else 0
+            e[nm + "_w"] = own[0].size if own else 0
+            vecbase = loc._is_ptr and (not loc.base._is_def or loc.base._is_vec)
+            if loc._is_ptr:
+                rd = _tree(lambda: m[X.mem(loc, rsize)]) if not vecbase else {"k": "skip", "w": 0, "sf": 0}
+            else:
+                rd = _tree(lambda: m[loc])
+            e[nm] = rd                                                   # what the location holds (read)
+            e[nm + "_item"] = ser.tree(own[0]) if own and loc._is_ptr else rd   # the item's own value
+        rec["items"].append(e)
+    rec["envs"] = envs
+    # amoco's own evaluation of the merged map on a concrete state: c >> mm (concrete addresses: noaliasing)
+    na = conf.Cas.noaliasing
+    conf.Cas.noaliasing = True
+    try:
+        for k in (2, 5):
+            env = envs[k]
+            ev = {"k": k + 1, "raised": "", "regs": [], "cells": []}
+            try:
+                c = mapper()
+                for name in sorted(u):
+                    c[u[name]] = X.cst(ser.unbits(env["regs"][name]), u[name].size)
+                for i, b in enumerate(env["mem"]):
+                    c[X.mem(X.cst(env["mlo"] + i, 32), 8)] = X.cst(b, 8)
+                r = c >> mm
+            except Exception as ex:
+                ev["raised"] = "%s: %s" % (type(ex).__name__, str(ex)[:100])
+                rec["ev"].append(ev)
+                continue
+            pb = ser.unbits(env["regs"]["p"])
+            for name in sorted(u):
+                ev["regs"].append({"n": name, "t": _tree(lambda: r[u[name]])})
+            for o in range(lo, hi):
+                ev["cells"].append({"o": o, "t": _tree(lambda: r[X.mem(X.cst(pb + o, 32), 8)])})
+            rec["ev"].append(ev)
+    finally:
+        conf.Cas.noaliasing = na
+
+
+def _window(beh, scale):
+    offs, sh = [], 0
+    for ops in (beh["pre"], beh["b1"], beh["b2"], beh.get("b3", [])):
+        s = sum(o["k"] for o in beh["pre"] if o["o"] == "pp") if ops is not beh["pre"] else 0
+        for o in ops:
+            if o["o"] == "pp":
+                s += o["k"]
+            elif o["o"] == "st":
+                offs.append((o["off"] + s) * scale)
+            elif o["o"] == "stv":
+                sh = max(sh, o.get("d", 0) * scale)
+        sh = max(sh, 0)
+    vps = [k * scale for ops in (beh["pre"], beh["b1"], beh["b2"], beh.get("b3", [])) for o in ops if o["o"] == "vp" for k in o["offs"]]
+    offs += vps + [k + sh for k in vps]
+    return (min(offs) - 2, max(offs) + 4 * scale + 2) if offs else (0, 4)
 
 
 def execute(tid, beh, seed):
     from amoco.cas import expressions as X
     from amoco.cas.mapper import mapper, merge
     from amoco.config import conf
+    from pickle import dumps, loads, HIGHEST_PROTOCOL
     rng = random.Random(seed)
-    scale = rng.choice((1, 2)) if all(o.get("n", 1) <= 2 for o in beh["pre"] + beh["b1"] + beh["b2"]) else 1
+    allops = beh["pre"] + beh["b1"] + beh["b2"] + beh.get("b3", [])
+    scale = rng.choice((1, 2)) if all(o.get("n", 1) <= 2 for o in allops) else 1
     na = rng.choice((True, True, False))
     thr = rng.choice((1, 2, 3, 5, 8)) if beh["t"] else 0
     saved = (conf.Cas.noaliasing, conf.Cas.memtrace, conf.Cas.complexity)
     conf.Cas.noaliasing, conf.Cas.memtrace, conf.Cas.complexity = na, True, 0
-    rec = {"t": tid, "seed_case": seed, "w": beh["w"], "thr": thr, "na": 1 if na else 0, "scale": scale, "beh": beh, "raised": "", "at": "",
-           "regs": [], "cells": [], "items": [], "envs": [], "conds": [[], []]}
+
+    def new(stage):
+        return {"t": tid, "seed_case": seed, "stage": stage, "w": beh["w"] if stage == 1 else beh.get("w2", 0), "thr": thr,
+                "na": 1 if na else 0, "scale": scale, "beh": beh, "raised": "", "at": "",
+                "regs": [], "cells": [], "items": [], "envs": [], "ev": [], "conds": [[], []]}
+    rec = new(1)
     try:
         u, kinds, fkinds, ks = _setup(rng, scale)
         step = "build"
         try:
-            ms = []
-            condvals = []
-            for bi, (ops, ck) in enumerate(((beh["b1"], beh["c1"]), (beh["b2"], beh["c2"]))):
+            ms, condvals = [], []
+            branches = [(beh["b1"], beh["c1"]), (beh["b2"], beh["c2"])]
+            if "b3" in beh:
+                branches.append((beh["b3"], beh.get("c3", 0)))
+            for ops, ck in branches:
                 m = mapper()
                 _apply(m, beh["pre"], u, kinds, fkinds, scale)
                 _apply(m, ops, u, kinds, fkinds, scale)
-                conds = []
-                cv = {}
+                conds, cv = [], {}
                 if ck in (1, 3):
                     cv["x"] = rng.choice((0, 3, ks[1] & 0xFF, rng.getrandbits(W)))
                     conds.append(u["x"] == X.cst(cv["x"], W))
@@ -106,12 +222,28 @@ def execute(tid, beh, seed):
                     else:
                         m.conds = conds
                 condvals.append(cv)
-                rec["conds"][bi] = [{"r": k, "v": ser.bits(v, W)} for k, v in sorted(cv.items())]
                 ms.append(m)
-            # merge() simplifies shared expression objects in place: what m1 and m2 held when they were
-            # given to merge() is observed on copies taken before the call
+            cj = lambda cv: [{"r": k, "v": ser.bits(v, W)} for k, v in sorted(cv.items())]
+            rec["conds"] = [cj(condvals[0]), cj(condvals[1])]
+            # valuations: boundary + random, some forced to satisfy each branch's conditions
+            lo, hi = _window(beh, scale)
+            pbase = 0x1000 * rng.randint(1, 0x3FF)
+            envs = []
+            for i in range(8):
+                regs = {"p": pbase}
+                for name in sorted(u):
+                    if name != "p":
+                        wd = u[name].size
+                        regs[name] = rng.choice((0, 1, (1 << wd) - 1, rng.getrandbits(wd), rng.getrandbits(wd)))
+                if i < 6:
+                    regs.update(condvals[i % len(condvals)])
+                if i in (2, 3) and all(not cv for cv in condvals):
+                    regs["y"] = regs["x"]
+                envs.append({"regs": dict((k, ser.bits(v, u[k].size)) for k, v in regs.items()),
+                             "mlo": pbase + lo - 4, "mem": [rng.randint(0, 255) for _ in range(hi - lo + 12)]})
+            # merge() simplifies shared expression objects in place: what the maps held when they were given to
+            # merge() is observed on copies taken before the call
             step = "copy"
-            from pickle import dumps, loads, HIGHEST_PROTOCOL
             held = [loads(dumps(m, HIGHEST_PROTOCOL)) for m in ms]
             step = "merge"
             conf.Cas.complexity = thr          # the threshold under which the maps are merged
@@ -123,70 +255,25 @@ def execute(tid, beh, seed):
             rec["raised"] = "%s: %s" % (type(ex).__name__, str(ex)[:200])
             rec["at"] = step
             return rec
-        maps = held + [mm]
-        names = ["m1", "m2", "mm"]
-        # registers of the universe (written or not) and every byte of the window of zone p
-        for name in sorted(u):
-            r = u[name]
-            e = {"n": name, "w": r.size}
-            for nm, m in zip(names, maps):
+        _observe(rec, held[:2], mm, u, lo, hi, envs)
+        if len(ms) == 3:
+            rec2 = new(2)
+            rec2["conds"] = [[], cj(condvals[2])]
+            try:
+                step = "copy"
+                held12 = loads(dumps(mm, HIGHEST_PROTOCOL))
+                step = "merge"
+                conf.Cas.complexity = thr
                 try:
-                    e[nm] = ser.tree(m[r])
-                except Exception as ex:
-                    e[nm] = {"k": "raised", "w": 0, "sf": 0, "what": type(ex).__name__}
-            rec["regs"].append(e)
-        offs = [o["off"] * scale for o in beh["pre"] + beh["b1"] + beh["b2"] if o["o"] == "st"]
-        offs += [k * scale for o in beh["pre"] + beh["b1"] + beh["b2"] if o["o"] == "vp" for k in o["offs"]]
-        lo, hi = (min(offs) - 2, max(offs) + 4 * scale + 2) if offs else (0, 4)
-        for o in range(lo, hi):
-            e = {"o": o}
-            for nm, m in zip(names, maps):
-                try:
-                    e[nm] = ser.tree(m[X.mem(u["p"] + o, 8)] if o else m[X.mem(u["p"], 8)])
-                except Exception as ex:
-                    e[nm] = {"k": "raised", "w": 0, "sf": 0, "what": type(ex).__name__}
-            rec["cells"].append(e)
-        # items: key and value in each map (the other map is read with the same call merge() uses)
-        keys = []
-        for m in maps:
-            for loc, v in m:
-                if not any(ser.tree(loc) == ser.tree(k) for k, _ in keys):
-                    keys.append((loc, v.size))
-        for loc, size in keys:
-            e = {"loc": ser.tree(loc)}
-            msize = [v.size for l, v in mm if ser.tree(l) == ser.tree(loc)]
-            rsize = msize[0] if msize else size          # locations are compared at the size of mm's item
-            for nm, m in zip(names, maps):
-                own = [v for l, v in m if ser.tree(l) == ser.tree(loc)]
-                e[nm + "_has"] = 1 if own else 0
-                e[nm + "_w"] = own[0].size if own else 0
-                vecbase = loc._is_ptr and not loc.base._is_def or (loc._is_ptr and loc.base._is_vec)
-                try:
-                    if loc._is_ptr:
-                        rd = ser.tree(m[X.mem(loc, rsize)]) if not vecbase else {"k": "skip", "w": 0, "sf": 0}
-                    else:
-                        rd = ser.tree(m[loc])
-                except Exception as ex:
-                    rd = {"k": "raised", "w": 0, "sf": 0, "what": type(ex).__name__}
-                e[nm] = rd                                                   # what the location holds (read)
-                e[nm + "_item"] = ser.tree(own[0]) if own and loc._is_ptr else rd   # the item's own value
-            rec["items"].append(e)
-        # valuations: boundary + random, some forced to satisfy each branch's conditions
-        pbase = 0x1000 * rng.randint(1, 0x3FF)
-        for i in range(8):
-            regs = {"p": pbase}
-            for name in sorted(u):
-                if name == "p":
-                    continue
-                wd = u[name].size
-                regs[name] = rng.choice((0, 1, (1 << wd) - 1, rng.getrandbits(wd), rng.getrandbits(wd)))
-            if i < 6:
-                regs.update(condvals[i % 2])
-            if i in (2, 3) and set(condvals[0]) == set(condvals[1]) == set():
-                regs["y"] = regs["x"]
-            env = {"regs": dict((k, ser.bits(v, u[k].size)) for k, v in regs.items()),
-                   "mlo": pbase + lo - 4, "mem": [rng.randint(0, 255) for _ in range(hi - lo + 12)]}
-            rec["envs"].append(env)
+                    mm3 = merge(mm, ms[2], widening=True) if beh.get("w2") else merge(mm, ms[2])
+                finally:
+                    conf.Cas.complexity = 0
+            except Exception as ex:
+                rec2["raised"] = "%s: %s" % (type(ex).__name__, str(ex)[:200])
+                rec2["at"] = step
+            else:
+                _observe(rec2, [held12, held[2]], mm3, u, lo, hi, envs)
+            rec["second"] = rec2
         return rec
     finally:
         conf.Cas.noaliasing, conf.Cas.memtrace, conf.Cas.complexity = saved
@@ -201,8 +288,10 @@ def random_behaviour(rng):
             return {"o": "reg", "r": rng.choice("ab"), "e": e}
         if k < 0.35:
             return {"o": "flag", "r": rng.choice(("f", "g")), "e": e}
-        if have_v and k < 0.55:
-            return {"o": "stv", "r": "v", "n": rng.choice((1, 2, 4)), "e": e}
+        if k < 0.43:
+            return {"o": "pp", "k": rng.choice((1, 2, 4))}
+        if have_v and k < 0.62:
+            return {"o": "stv", "r": "v", "n": rng.choice((1, 2, 4)), "e": e, "d": rng.choice((0, 0, 1, 2, 4))}
         return {"o": "st", "off": rng.randint(0, 6), "n": rng.choice((1, 2, 4)), "e": e}
     pre = []
     have_v = rng.random() < 0.4
@@ -213,5 +302,19 @@ def random_behaviour(rng):
         pre.append(op(False, have_v))
     b1 = [op(False, have_v) for _ in range(rng.randint(0, 3))]
     b2 = [op(False, have_v) for _ in range(rng.randint(1, 3))]
-    return {"pre": pre, "b1": b1, "b2": b2, "w": 1 if rng.random() < 0.25 else 0, "t": 1 if rng.random() < 0.3 else 0,
-            "c1": rng.choice((0, 0, 1, 2, 3)), "c2": rng.choice((0, 0, 1, 2))}
+    beh = {"pre": pre, "b1": b1, "b2": b2, "w": 1 if rng.random() < 0.25 else 0, "t": 1 if rng.random() < 0.3 else 0,
+           "c1": rng.choice((0, 0, 1, 2, 3)), "c2": rng.choice((0, 0, 1, 2))}
+    if rng.random() < 0.3:
+        # a chain of two merges: the merge of the first two branches is merged with a third branch
+        beh["b3"] = [op(False, have_v) for _ in range(rng.randint(1, 2))]
+        beh["c3"] = 0
+        beh["w2"] = 1 if rng.random() < 0.3 else 0
+        if rng.random() < 0.6:
+            # the widened value of a register absorbs a further alternative
+            r = rng.choice("ab")
+            beh["b1"].append({"o": "reg", "r": r, "e": 2})
+            beh["b2"].append({"o": "reg", "r": r, "e": rng.choice((2, 4, 3))})
+            beh["b3"].append({"o": "reg", "r": r, "e": rng.choice((1, 5))})
+            beh["w"] = 1
+            beh["c1"] = beh["c2"] = 0
+    return beh
